@@ -422,4 +422,22 @@ def task_bounded(I, seed, k):
                 from spec import qrdecode
                 d = qrdecode.decode(q.matrix)
                 report('C16.bounded.factory_symbol_decodes_to_payload', [] if d.payload == pl and not d.problems else ['decoded %r' % d.payload[:40]], dict(call='make_epc_qr(**%r)' % kw), dict(fn='replay_payload', builder='epc', kw=repr(kw)))
+    if k == 0:
+        # EPC size limit from both sides: a payload of exactly 331 bytes is accepted, 332 bytes are refused (multi-byte name, text padded byte by byte)
+        base = dict(name='\xe4' * 70, iban='DE33100205000001194700', amount='12.30', bic='BFSWDE33BER', encoding='utf-8')
+        try:
+            l0 = len(H._make_epc_qr_data(text='x', **base))
+            for extra, must_accept in ((331 - l0, True), (332 - l0, False)):
+                kw = dict(base, text='x' * (1 + extra))
+                ok_len = 1 + extra <= 140
+                try:
+                    pl = H._make_epc_qr_data(**kw)
+                    outcome = len(pl)
+                except ValueError:
+                    outcome = 'ValueError'
+                good = (outcome == 331) if must_accept else (outcome == 'ValueError')
+                report('C16.bounded.epc_payload_of_331_bytes_accepted_332_refused', [] if (good and ok_len) else ['payload of %d bytes: %r' % (l0 + extra, outcome)],
+                       dict(call='_make_epc_qr_data(name=70 two-byte characters, text=%d characters, ...)' % (1 + extra)), dict(fn='replay_payload', builder='epc', kw=repr(kw)))
+        except Exception as ex:
+            report('C16.bounded.epc_payload_of_331_bytes_accepted_332_refused', ['raised %r' % (ex,)], dict(call='EPC size boundary'), dict(fn='replay_payload', builder='epc', kw=repr(base)))
     I.samples = [dict(bounded='helper payloads parsed back', cases=n)]
